@@ -165,7 +165,8 @@ Definition get_mapped_entries_with_index (cm : list cme) (offset : nat) (o : obj
   end.
 
 (* ---- TryFromJson (try_from.rs) ---- *)
-Inductive jty := TUnit | TBool | TString | TOption (t : jty) | TVec (t : jty) | TMap (t : jty).
+Inductive jty := TUnit | TBool | TString | TNumber | TOption (t : jty) | TVec (t : jty) | TMap (t : jty).
+(* TNumber = f64 (number_from_json!): every JSON number converts, anything else is a kind mismatch *)
 
 (* the error: Mapped<Unexpected> = (offset, expected kind, found kind) *)
 Definition conv_err := (nat * kind * kind)%type.
@@ -176,6 +177,7 @@ Fixpoint try_from_json_at (t : jty) (cm : list cme) (v : value) (offset : nat)
   | TUnit => Some (match v with VNull => None | _ => Some (offset, KNull, kind_of v) end)
   | TBool => Some (match v with VBool _ => None | _ => Some (offset, KBoolean, kind_of v) end)
   | TString => Some (match v with VStr _ => None | _ => Some (offset, KString, kind_of v) end)
+  | TNumber => Some (match v with VNum _ => None | _ => Some (offset, KNumber, kind_of v) end)
   | TOption t' => match v with VNull => Some None | _ => try_from_json_at t' cm v offset end
   | TVec t' =>
       match v with
